@@ -13,7 +13,7 @@ from ..ops import World
 
 class C04(Machine):
     ID = "C04"
-    FAMILY_WEIGHTS = {"sparse": 3, "dense": 1, "canal": 4, "modular": 4, "maa": 1, "cascade": 3, "degenerate": 1}
+    FAMILY_WEIGHTS = {"sparse": 3, "dense": 1, "canal": 4, "modular": 4, "maa": 1, "cascade": 3, "degenerate": 1, "inputs_mix": 2}
 
     def gen_params(self, sc, rng):
         sc["params"] = {"len": rng.randint(1, 9), "p_cache": rng.choice([0.0, 0.15, 0.3]), "final": rng.choice(["bfs", "dfs"])}
